@@ -143,3 +143,15 @@ Proof.
   - constructor; [apply loop_inv_start|simpl; lia|]. intros [C _]. simpl in C. lia.
   - vm_compute. eexists; eexists; reflexivity.
 Qed.
+
+(* C05: a history with one resume that went through *)
+From Verif Require Import proofs.EngineResumes.
+Example ex_history : history ex_assets 1 ex_completed.
+Proof.
+  assert (H0 : history ex_assets 0 ex_waiting).
+  { change ex_waiting with (session_ (match ex_started with ROk x => x | _ => {| session_ := new_session TManual 1; sprint_ := empty_sprint |} end)).
+    eapply h_start with (t := TManual) (f := 1). vm_compute. reflexivity. }
+  assert (H : exists x, resume_session ex_assets ex_waiting (RMsg [97]) [] = Resumed (ROk x) /\ session_ x = ex_completed).
+  { vm_compute. eexists; split; reflexivity. }
+  destruct H as (x & Hx & <-). eapply h_resume; [exact H0|exact Hx|]. vm_compute. intros C. apply C. reflexivity.
+Qed.
